@@ -908,6 +908,7 @@ inductive Mut
   | metaSetItem (key : String) (x : Nat)
   | nestedAppend (x : Nat)
   | arrSet
+  | readInfos
 
 /-- the heap an operation leaves behind, whether it succeeds or raises -/
 def Mut.run (h : Heap) (n : Nat) : Mut → Heap
@@ -922,6 +923,7 @@ def Mut.run (h : Heap) (n : Nat) : Mut → Heap
   | .metaSetItem key x => (Heap.metaSetItem h n key x).1
   | .nestedAppend x => (Heap.nestedAppend h n x).1
   | .arrSet => (Heap.arrSet h n).1
+  | .readInfos => (Heap.readInfos h n).1
 
 /-- one in-place operation — successful or failing, on coordinates, form, frame (incl. a transformation the environment
 makes fail), metadata key, metadata container (empty or not, nested or not), maneuver list (incl. the one the getter
@@ -940,6 +942,7 @@ theorem mut_sep {h0 h : Heap} (sep : Sep h0 h) {n : Nat} (hn : h0.length ≤ n) 
   | metaSetItem key x => exact metaSetItem_sep sep hn key x
   | nestedAppend x => exact nestedAppend_sep sep hn x
   | arrSet => exact arrSet_sep sep hn
+  | readInfos => exact readInfos_sep sep hn
 
 /-- a history: operations applied one after the other, each to some object that did not exist in `h0` -/
 def runMuts (h : Heap) : List (Nat × Mut) → Heap
@@ -1009,6 +1012,7 @@ theorem mut_out {lo hi : Nat} {h1 h : Heap} (o : Out lo hi h1 h) {a : Nat} (ha :
   | metaSetItem key x => exact metaSetItem_out o ha key x
   | nestedAppend x => exact nestedAppend_out o ha x
   | arrSet => exact arrSet_out o ha
+  | readInfos => exact readInfos_out o ha
 
 theorem muts_out {lo hi : Nat} {h1 : Heap} (ms : List (Nat × Mut)) (hoff : ∀ p ∈ ms, Off lo hi p.1) :
     ∀ h, Out lo hi h1 h → Out lo hi h1 (runMuts h ms) := by
@@ -1247,6 +1251,33 @@ theorem transformObj_separate (h : Heap) (a : Nat) (fr : Fr) (wf : WfM h) :
     · exact ⟨Sep.refl h, fun n hn => by simp at hn⟩
 
 example : (transformObj C15Ex.h0 6 (.reg "ITRF" 0)).2 = .ok 12 := by decide +kernel
+
+/-! ## helper objects created by a getter and kept in `_data`: `infos` -/
+
+/-- the cache test of the `infos` getter, as read from the AST of statevector.py on this run, is the one that never finds a cached
+helper (re-checked by the kernel on every run; `"infos" not in self._data` makes this fail) -/
+theorem infosTest_never : infosTest = .never := by decide +kernel
+
+/-- with that test, in EVERY heap — i.e. after any history of reads of `infos`, copies, conversions, pickling, modifications on either
+side — the helper `sv.infos` hands out is bound to `sv` itself, never to the object `sv` was copied from (whose helper `copy()`
+passes along in `_data`, see `C15W.copy_hands_over_infos_entry`) -/
+theorem getInfos_own (h : Heap) (a : Nat) (s : SV) (hs : getSV h a = some s) : (getInfos infosTest h a).2 = some a := by
+  rw [infosTest_never]
+  unfold getInfos
+  rw [hs]
+
+/-- the getter rewrites the object's own `_data` dict and allocates one marker cell; every other cell is untouched -/
+theorem getInfos_frame (t : InfosTest) (h : Heap) (a : Nat) (s : SV) (hs : getSV h a = some s) :
+    ∀ x, x < h.length → x ≠ s.data → (getInfos t h a).1[x]? = h[x]? := by
+  intro x hx hne
+  unfold getInfos
+  rw [hs]
+  simp only
+  split
+  · rfl
+  · simp only [alloc]
+    rw [write_other _ _ _ _ hne]
+    simp [List.getElem?_append_left hx]
 
 /-! ## `copy.deepcopy` -/
 
